@@ -336,6 +336,29 @@ def registration_policy(prog):
     return None
 
 
+def _restore_is_sanctioned(prog, setter):
+    """True, or a word saying what is wrong"""
+    stores = [vexpr(setter, rv['a']) for bb, j, lhs, rv, st in setter.assigns()
+              if [x.get('n') for x in lhs.get('p', []) if isinstance(x, dict) and 'f' in x] == ['lookup_table'] and rv['k'] == 'use' and not setter.blocks[bb].get('cleanup')]
+    if stores != ['arg2']:
+        return 'setter-stores-%s' % (stores[:1] or ['nothing'])[0]
+    callers = [c for c in prog.callers_of(setter.path) if not c.fn.blocks[c.bb].get('cleanup')]
+    if len(callers) != 1 or callers[0].fn.path != 'slicec::parsers::parse_files':
+        return 'called-from-%s' % sorted({c.fn.path.rsplit('::', 1)[-1] for c in callers})
+    c = callers[0]
+    pf = c.fn
+    if vexpr(pf, c.args[1]) != 'clone(lookup_table(arg1.ast))':
+        return 'argument-%s' % vexpr(pf, c.args[1])[:40]
+    saved = [k for k in pf.calls() if k.name() == 'lookup_table' and not pf.blocks[k.bb].get('cleanup')]
+    parse = [k for k in pf.calls() if k.name() == 'parse_file' and not pf.blocks[k.bb].get('cleanup')]
+    errs = branches_on_call(pf, lambda k: k.name() == 'has_errors')
+    if len(saved) != 1 or len(parse) != 1 or not pf.dominates(saved[0].bb, parse[0].bb) or loop_of(pf, saved[0].bb) != loop_of(pf, parse[0].bb) or loop_of(pf, parse[0].bb) is None:
+        return 'table-not-saved-before-each-parse'
+    if not errs or not any(pf.edge_dominates(b['bb'], b['true'], c.bb) and pf.dominates(parse[0].bb, b['bb']) for b in errs):
+        return 'not-on-the-failure-edge'
+    return True
+
+
 def r_name_table_single_writer(r, prog):
     A = 'slicec::ast::Ast'
     n = 0
@@ -354,6 +377,15 @@ def r_name_table_single_writer(r, prog):
                     r.ok('add_module registers a module only under a vacant name (it never replaces another element)')
                 else:
                     r.finding('module-can-replace-element', a['span'], 'add_module can overwrite an entry of the name table: a module that shares its name with a definition or a primitive would take its place')
+            elif f.path == A + '::set_lookup_table':
+                # the table is put back as it was before a file that failed to parse (its orphaned members must not be found by name):
+                # the setter stores its argument, and its only caller is parse_files, on the has_errors edge, with the clone of
+                # lookup_table() it took before parsing that file
+                ok_set = _restore_is_sanctioned(prog, f)
+                if ok_set is True:
+                    r.ok('set_lookup_table only puts back, after a file failed to parse, the table saved before that file was parsed')
+                else:
+                    r.finding('name-table-replaced:%s' % ok_set, a['span'], 'Ast::set_lookup_table can replace the name table other than by the copy saved before a file that then failed to parse (%s)' % ok_set)
             else:
                 r.finding('name-table-written-in:%s' % f.path, a['span'], 'Ast::lookup_table is written in %s' % f.path)
     if n < 2:
